@@ -32,6 +32,13 @@ func encP(o types.EncoderTo) []byte {
 
 func freshLike(o any) any { return reflect.New(reflect.TypeOf(o).Elem()).Interface() }
 
+// moreResp is one further response on an exchange's stream: an error or an object.
+type moreResp struct {
+	err string
+	obj pobj
+	enc []byte
+}
+
 // receiver is the variable a message of like's type is read into: a new one,
 // or (a client's response object in a loop) the one that held the last
 // message of that type on this connection.
@@ -55,8 +62,9 @@ type exchange struct {
 	errType types.Specifier // RHP3: the error's type and data members, when the host sets them
 	errData []byte
 	errSet  bool
-	atLimit bool // RHP2: the response frame is exactly as long as the reader's limit
-	reuse   bool // the reader takes the message into the variable that held the last message of this type
+	atLimit bool       // RHP2: the response frame is exactly as long as the reader's limit
+	reuse   bool       // the reader takes the message into the variable that held the last message of this type
+	more    []moreResp // RHP3: further responses on the same stream (a program's instructions one after the other)
 	reqEnc  []byte
 	respEnc []byte
 	maxReq  uint64 // limit the reader passes
@@ -104,6 +112,7 @@ var rpcs3 = []struct {
 func buildExchanges(t *sim.Tape, v int, overlimit bool) []exchange {
 	var out []exchange
 	n := t.Range(1, 5)
+	errHeavy := v == 3 && !overlimit && t.Chance(1, 6) // a host that refuses everything, at length
 	for i := 0; i < n; i++ {
 		var ex exchange
 		var mkReq, mkResp func() pobj
@@ -167,7 +176,12 @@ func buildExchanges(t *sim.Tape, v int, overlimit bool) []exchange {
 			ex.name += "(at its limit)"
 			ex.atLimit = true
 		}
-		if !ex.atLimit && t.Chance(1, 6) {
+		if v == 3 && errHeavy && !ex.atLimit {
+			// (a cut of the host's direction then lands inside an error more often than not:
+			// what arrives of it is no error the host wrote)
+			ex.respErr = string(hexish(sim.HashBytes("long-err", uint64(i), 1, t.Range(3000, 14000)))) // (longer than one frame of the mux)
+			ex.maxResp += 16384
+		} else if !ex.atLimit && t.Chance(1, 6) {
 			ex.respErr = string(hexish(sim.HashBytes("err", uint64(i), 1, t.Range(1, 100))))
 			if len(ex.respErr) > 8 && t.Chance(1, 2) {
 				ex.respErr = ex.respErr[:len(ex.respErr)/2] + ": " + ex.respErr[len(ex.respErr)/2:]
@@ -183,6 +197,21 @@ func buildExchanges(t *sim.Tape, v int, overlimit bool) []exchange {
 			ex.raw = true
 		}
 		ex.reuse = t.Chance(1, 2)
+		if v == 3 && !ex.atLimit && t.Chance(1, 3) {
+			// the same stream carries more responses: failures and results in any order
+			for k := t.Range(1, 3); k > 0; k-- {
+				var m moreResp
+				if t.Chance(1, 2) {
+					m.err = string(hexish(sim.HashBytes("more-err", uint64(i), uint64(k), t.Range(1, 60))))
+				} else {
+					m.obj = mkResp()
+					fillObject(t, m.obj, 0, uint64(100+i*4+k))
+					fixup(m.obj)
+					m.enc = encP(m.obj)
+				}
+				ex.more = append(ex.more, m)
+			}
+		}
 		out = append(out, ex)
 	}
 	if overlimit {
@@ -477,6 +506,28 @@ func runRHP3(s *Session, exs []exchange, wrongKey bool) {
 				}
 				e.logf("ex %d %s: response ok", i, ex.name)
 			}
+			for k, m := range ex.more {
+				g := receiver(prevResp, ex.resp, ex.reuse)
+				err := st.ReadResponse(g, uint64(len(m.enc))+2048)
+				var re *rhp3.RPCError
+				switch {
+				case m.err != "" && errors.As(err, &re) && re.Description == m.err:
+					e.inc("rhp3.further-error-delivered")
+				case m.err == "" && err == nil:
+					fixup(g)
+					if !bytes.Equal(encP(g), m.enc) {
+						e.violate("C19", "rhp3-object-altered", fmt.Sprintf("exchange %d: further response %d on the stream decoded to a different object than the one written", i, k))
+					}
+					e.inc("rhp3.further-response-read")
+				default:
+					if !s.anyFault() {
+						e.violate("C19", "rhp3-sequence-altered", fmt.Sprintf("exchange %d (%s): further response %d on the same stream was written as (error %q, object of %d bytes) and read as error %v", i, ex.name, k, m.err, len(m.enc), err))
+					}
+					e.logf("ex %d further response %d: read error", i, k)
+					st.Close()
+					return
+				}
+			}
 			st.Close()
 		}
 		e.inc("rhp3.completed")
@@ -532,6 +583,16 @@ func runRHP3(s *Session, exs []exchange, wrongKey bool) {
 				}
 			} else {
 				err = st.WriteResponse(ex.resp)
+			}
+			for _, m := range ex.more {
+				if err != nil {
+					break
+				}
+				if m.err != "" {
+					err = st.WriteResponseErr(errors.New(m.err))
+				} else {
+					err = st.WriteResponse(m.obj)
+				}
 			}
 			st.Close()
 			if err != nil {
